@@ -80,7 +80,7 @@ def ignore_aliases(data):
     # attributes (e.g. the default translation and rotation of a
     # RigidCluster) comes back as two lists, so an alias would not survive
     # a save/load cycle
-    if isinstance(data, (list, tuple)):
+    if isinstance(data, (list, tuple, np.ndarray)):
         return True
     try:
         # numpy arrays no longer want to be compared to None, so instead check for a none by looking for if it is an instance of NoneType
@@ -124,6 +124,15 @@ def numpy_int_representer(dumper, data):
     return dumper.represent_int(int(data))
 yaml.add_representer(np.int64, numpy_int_representer)
 yaml.add_representer(np.int32, numpy_int_representer)
+
+# numpy scalars of the other widths (e.g. the float32 standard deviation of a
+# float32 image) are written the same way
+def numpy_bool_representer(dumper, data):
+    return dumper.represent_bool(bool(data))
+yaml.add_multi_representer(np.floating, numpy_float_representer)
+yaml.add_multi_representer(np.integer, numpy_int_representer)
+yaml.add_multi_representer(np.complexfloating, complex_representer)
+yaml.add_representer(np.bool_, numpy_bool_representer)
 
 
 # numpy ufuncs can no longer be pickled as of numpy 1.20
